@@ -397,6 +397,7 @@ class HtmlToAst(HTMLParser):
     def __init__(self, name: str = "", convert_charrefs: bool = False):
         super().__init__(convert_charrefs=convert_charrefs)
         self.struct = Tree(name)
+        self._offset = 0
 
     def feed(self, source: str) -> Root:  # type: ignore[override]
         """Parse the source string."""
@@ -444,11 +445,24 @@ class HtmlToAst(HTMLParser):
         double = keyword in {"temp", "cdata", "ignore", "include", "rcdata"}
         self.struct.nest_terminal(Declaration, f"[{decl}{']]' if double else ']'}")
 
+    def updatepos(self, i: int, j: int) -> int:
+        # called with the start (in rawdata) of each construct, before its handler
+        self._offset = j
+        return super().updatepos(i, j)
+
+    def _nest_reference(self, klass: type[TerminalElement], prefix: str, data: str):
+        # references are also reported when the final ``;`` is missing (``AT&T``):
+        # these are kept as the plain text that they are
+        if self.rawdata.startswith(";", self._offset + len(prefix) + len(data)):
+            self.struct.nest_terminal(klass, data)
+        else:
+            self.struct.nest_terminal(Data, prefix + data)
+
     def handle_charref(self, data: str):
-        self.struct.nest_terminal(Char, data)
+        self._nest_reference(Char, "&#", data)
 
     def handle_entityref(self, data: str):
-        self.struct.nest_terminal(Entity, data)
+        self._nest_reference(Entity, "&", data)
 
     def handle_pi(self, data: str):
         self.struct.nest_terminal(Pi, data)
